@@ -1178,8 +1178,11 @@ public:
     static_assert(std::is_pointer_v<T_Rhs>, "Must be a pointer");
     static_assert(std::is_assignable_v<T&, T_Rhs>,
                   "Should assign pointers of compatible types.");
+    // Check the pointer that is stored: converting to T may move it (from a
+    // derived class to a base that is not its first)
+    std::remove_cv_t<T> converted = val;
     // Maybe a function pointer, so we need to cast
-    const void* cast_val = reinterpret_cast<const void*>(val);
+    const void* cast_val = reinterpret_cast<const void*>(converted);
     bool safe = sandbox.is_pointer_in_sandbox_memory(cast_val);
     detail::dynamic_check(
       safe,
@@ -1199,7 +1202,7 @@ public:
       "address with get_sandbox_function_address(sandbox, foo), and pass in "
       "the "
       "address\n ");
-    data = val;
+    data = converted;
   }
 
   inline tainted_opaque<T, T_Sbx> to_opaque()
@@ -1459,8 +1462,11 @@ public:
     static_assert(std::is_pointer_v<T_Rhs>, "Must be a pointer");
     static_assert(std::is_assignable_v<T&, T_Rhs>,
                   "Should assign pointers of compatible types.");
+    // Check the pointer that is stored: converting to T may move it (from a
+    // derived class to a base that is not its first)
+    std::remove_cv_t<T> converted = val;
     // Maybe a function pointer, so we need to cast
-    const void* cast_val = reinterpret_cast<const void*>(val);
+    const void* cast_val = reinterpret_cast<const void*>(converted);
     bool safe = sandbox.is_pointer_in_sandbox_memory(cast_val);
     detail::dynamic_check(
       safe,
@@ -1481,7 +1487,7 @@ public:
       "the "
       "address\n ");
     get_sandbox_value_ref() =
-      sandbox.template get_sandboxed_pointer<T_Rhs>(cast_val);
+      sandbox.template get_sandboxed_pointer<std::remove_cv_t<T>>(cast_val);
   }
 
   template<typename T_Dummy = void>
